@@ -196,6 +196,9 @@ func selfTest(r *Report, repo, verif string) {
 			// behaviour-preserving variants that apply to every property (renames of unexported identifiers)
 			all, _ := filepath.Glob(filepath.Join(verif, "variants", kind, "ALL-*.patch"))
 			files = append(files, all...)
+			// behaviour-preserving refactorings written by independent maintainers-for-a-day (not generated by mkvariants.py)
+			ext, _ := filepath.Glob(filepath.Join(verif, "variants", "keep-ext", r.Prop+"-*.patch"))
+			files = append(files, ext...)
 		}
 		sort.Strings(files)
 		for _, f := range files {
